@@ -20,6 +20,7 @@ package pagetree
 import (
 	"errors"
 	"fmt"
+	"maps"
 
 	"seehuhn.de/go/pdf"
 	"seehuhn.de/go/pdf/graphics/content"
@@ -245,8 +246,9 @@ func (w *Writer) AppendPageDict(ref pdf.Reference, dict pdf.Dict) error {
 
 	node := &nodeInfo{
 		dictInfo: &dictInfo{
-			ref:  ref,
-			dict: dict,
+			ref: ref,
+			// shallow copy: the tree sets Parent and deletes hoisted keys
+			dict: maps.Clone(dict),
 		},
 		pageCount: 1,
 		depth:     0,
